@@ -124,11 +124,14 @@ func (p *c12) pairChecks(x *res, a, b string, ctx *runner.Ctx) {
 	}
 	// arithmetic: SET n = n + :v, n - :v, ADD n :v ; bystanders
 	byst := val.Item{"big": val.Num("12345678901234567890123456789012345678"), "tiny": val.Num("1E-130"), "f": val.Num("0.1"), "nsb": val.NS("9007199254740993", "0.3"), "neg0": val.Num("-0")}
-	for _, kind := range []string{"plus", "minus", "add"} {
+	for _, kind := range []string{"plus", "minus", "add", "plus-vp", "minus-vp"} {
 		var u *refmodel.Update
 		switch kind {
 		case "add":
 			u = &refmodel.Update{Actions: []refmodel.Action{{Kind: "ADD", Path: refmodel.P("n"), RHS: uv(":v")}}}
+		case "plus-vp", "minus-vp":
+			// the :value on the LEFT of the operator: :v + n, :v - n
+			u = &refmodel.Update{Actions: []refmodel.Action{{Kind: "SET", Path: refmodel.P("n"), RHS: &refmodel.UExpr{Kind: kind[:len(kind)-3], Kids: []*refmodel.UExpr{uv(":v"), up(refmodel.P("n"))}}}}}
 		default:
 			u = &refmodel.Update{Actions: []refmodel.Action{{Kind: "SET", Path: refmodel.P("n"), RHS: &refmodel.UExpr{Kind: kind, Kids: []*refmodel.UExpr{up(refmodel.P("n")), uv(":v")}}}}}
 		}
@@ -154,13 +157,20 @@ func (p *c12) pairChecks(x *res, a, b string, ctx *runner.Ctx) {
 			if kind == "minus" {
 				fl = f64(a) - f64(b)
 			}
+			if kind == "minus-vp" {
+				fl = f64(b) - f64(a)
+			}
 			sfx := ""
 			if after["n"].K == val.KN && (val.NumEqual(after["n"].Str, f64str(fl)) || (fl == f64(a) && val.NumEqual(after["n"].Str, a))) {
 				// the double-precision result, or: in double precision the operation is a no-op and
 				// the unchanged attribute kept its stored text
 				sfx = "~float64"
 			}
-			x.viol("arith"+sfx, kind, fmt.Sprintf("%s %s %s = %s, exact result %s", a, kind, b, after["n"].Canon(), want.Item["n"].Canon()), map[string]interface{}{"a": a, "b": b, "kind": kind, "got": after["n"]})
+			feat := kind
+			if sfx != "" {
+				feat = strings.TrimSuffix(kind, "-vp") // the listed double-precision findings are per operator, whichever side the :value is on
+			}
+			x.viol("arith"+sfx, feat, fmt.Sprintf("%s %s %s = %s, exact result %s", a, kind, b, after["n"].Canon(), want.Item["n"].Canon()), map[string]interface{}{"a": a, "b": b, "kind": kind, "got": after["n"]})
 		}
 		for name, orig := range byst {
 			if !val.Equal(after[name], orig) {
